@@ -29,6 +29,7 @@ type W2Opt struct {
 	NilTagPct   int  // requests that make the engine panic on the caller's goroutine
 	OptPct      int
 	UpdFromRule bool
+	Flood       bool // a few waiter rounds have hundreds of requests waiting at once
 	BigPools    bool // a few runs use pools of 33-70 instances
 	Prelude     bool // in some runs the pool goes through a management history that ends in the initial set before the clients start
 	Restore     bool // the root task re-installs the initial text before the final probe round (C17 with admins)
@@ -477,6 +478,7 @@ func RunW2(opt *W2Opt, plan, sched *simrt.Source, trace bool) *RunOut {
 	var waiterRound *Round
 	var waiterCalls []*Call
 	var waiterExtra *Call
+	var floodCalls []*Call
 	if opt.WaiterRound && nAdmins == 0 && g.Pct(60) {
 		waiterRound = &Round{Need: w.Max, K: int64(20 + g.Intn(200)), wTask: map[int]int32{}, wBase: map[int]int64{}, FullSeq: -1}
 		if g.Pct(70) {
@@ -493,6 +495,20 @@ func RunW2(opt *W2Opt, plan, sched *simrt.Source, trace bool) *RunOut {
 		}
 		waiterExtra = newCall(199, []int{MExecute, MConcurrent, MMix, MPoolEMMulti})
 		waiterRound.Waiters = []int{waiterExtra.Idx}
+		if opt.Flood && w.Max <= 5 && g.Pct(3) {
+			// "any number of concurrent requests": hundreds of them waiting while every instance is busy
+			waiterRound.Staged = false
+			waiterRound.K = 2
+			for i, n := 0, g.PickInt([]int{260, 300}); i < n; i++ {
+				c := newCall(300+i, []int{MExecute})
+				for _, pl := range c.Plan {
+					pl.Fire, pl.FireChild, pl.GateAt, pl.GateChild = -1, -1, -1, -1
+				}
+				floodCalls = append(floodCalls, c)
+				waiterRound.Waiters = append(waiterRound.Waiters, c.Idx)
+			}
+			cfg.StepCap = 6000000
+		}
 		ct.rounds = append(ct.rounds, waiterRound)
 	}
 	var finalRound *Round
@@ -687,6 +703,17 @@ func RunW2(opt *W2Opt, plan, sched *simrt.Source, trace bool) *RunOut {
 				invoke(waiterExtra)
 				wg.Done()
 			})
+			for _, c := range floodCalls {
+				c := c
+				wg.Add(1)
+				simrt.Go(func() {
+					if waiterRound.ExtraGate != 0 {
+						simrt.Gate(waiterRound.ExtraGate)
+					}
+					invoke(c)
+					wg.Done()
+				})
+			}
 		}
 		wg.Wait()
 		if opt.Restore && nAdmins > 0 {
@@ -788,9 +815,9 @@ func invokePoolNilTag(sc *Scenario, p *engine.GenginePool, c *Call) {
 		case MMixStopTag:
 			err, res = p.ExecuteMixModelWithStopTagDirect(data, nil)
 		case MSelectedCtlStop:
-			err, res = p.ExecuteSelectedRulesWithControlAndStopTag(data, c.B, nil, c.Names)
+			err, res = p.ExecuteSelectedRulesWithControlAndStopTag(data, c.B, nil, c.passNames())
 		default:
-			err, res = p.ExecuteSelectedRulesWithControlAndStopTagAsGivenSortedName(data, c.B, nil, c.Names)
+			err, res = p.ExecuteSelectedRulesWithControlAndStopTagAsGivenSortedName(data, c.B, nil, c.passNames())
 		}
 	}()
 	flags := int64(0)
